@@ -6,6 +6,7 @@ use crate::{
         common::{LineSide, LinearEquation},
         Line,
     },
+    transform::Transform,
 };
 
 /// Intersection test result.
@@ -48,14 +49,20 @@ pub struct IntersectionParams<'a> {
     le1: LinearEquation,
     le2: LinearEquation,
 
+    /// Origin of the coordinate system used for the linear equations.
+    origin: Point,
+
     /// Determinant, used to solve linear equations using Cramer's rule.
     denominator: i32,
 }
 
 impl<'a> IntersectionParams<'a> {
     pub fn from_lines(line1: &'a Line, line2: &'a Line) -> Self {
-        let le1 = LinearEquation::from_line(line1);
-        let le2 = LinearEquation::from_line(line2);
+        // The linear equations are relative to the start point of the first line. This makes the
+        // rounding of the intersection point independent of the absolute position of the lines.
+        let origin = line1.start;
+        let le1 = LinearEquation::from_line(&line1.translate(-origin));
+        let le2 = LinearEquation::from_line(&line2.translate(-origin));
         let denominator = le1.normal_vector.determinant(le2.normal_vector);
 
         Self {
@@ -63,6 +70,7 @@ impl<'a> IntersectionParams<'a> {
             line2,
             le1,
             le2,
+            origin,
             denominator,
         }
     }
@@ -79,6 +87,7 @@ impl<'a> IntersectionParams<'a> {
             denominator,
             le1: line1,
             le2: line2,
+            origin,
             ..
         } = *self;
 
@@ -119,7 +128,7 @@ impl<'a> IntersectionParams<'a> {
         };
 
         Intersection::Point {
-            point: Point::new(x_numerator, y_numerator) / denominator,
+            point: Point::new(x_numerator, y_numerator) / denominator + origin,
             outer_side,
         }
     }
